@@ -26,7 +26,10 @@ RULE = ("part 'threads': structured multi-thread programs (2-4 threads; own task
         "every step: a new thread starts with no current action, a new task with the action current at its creation, and a thread's/"
         "task's current action never changes because of another's steps. The merged tape must parse to the ground-truth forest, and "
         "the canonical parsed forest (concurrent siblings sorted) must be identical across all schedules of one program. Thread programs log by log_message, Action.log and through the standard "
-        "library bridge (eliot.stdlib.EliotHandler, created wherever the program first needs it). non-trivial = "
+        "library bridge (eliot.stdlib.EliotHandler, created wherever the program first needs it). part 'failures': 2-3 threads whose actions fail at "
+        "the same time, one with an exception whose registered extractor raises (so that its logging call is busy reporting that), the others with "
+        "exceptions whose extractors work (errno of OSError, a registered one), as failed ends or write_traceback; LINE events also on _errors.py "
+        "and _traceback.py; in every schedule each message carries exactly its own exception's extractor fields. non-trivial = "
         "schedule with a preemption inside eliot code / release order with >=2 live contexts; distinct by interleaving hash")
 ASSUMPTIONS = ["programs join the work they spawn before the enclosing action ends", "switch points: statement boundaries (threads), awaits (tasks)"]
 EXHAUSTIVE_NOTE = "threads: all one-preemption schedules (root thread first and last in priority) of each generated program"
@@ -40,6 +43,7 @@ def plan(tier, seed):
              for i in range(n) for o in range(2 if tier == "quick" else 3) for ch in range(NCH)]
     m = 64 if tier == "quick" else 800
     specs += [{"part": "async", "seed": seed, "i": i, "tier": tier} for i in range(m)]
+    specs += [{"part": "failures", "seed": seed, "i": i, "tier": tier} for i in range(6 if tier == "quick" else 40)]
     return specs
 
 
@@ -124,6 +128,137 @@ def part_threads(spec, res):
         res["sample"] = {"part": "threads", "program": prog, "threads_spawned": nthreads, "baseline_events": base["events"]}
 
 
+class BrokenExtractorError(Exception):
+    pass
+
+
+class FineExtractorError(Exception):
+    pass
+
+
+def part_failures(spec, res):
+    """Threads whose actions FAIL at the same time: one with an exception whose registered extractor raises (eliot reports that
+    with a traceback message - a long window inside that thread's logging call), the others with exceptions whose extractors work
+    (the built-in errno one for OSError, a registered one). What one thread's logging call is in the middle of must not show in the
+    messages of another: in every schedule every failed end / traceback message carries exactly its own exception's extractor fields."""
+    from eliot import _errors, _traceback, add_destinations, register_exception_extractor, remove_destination, start_action, write_traceback
+    rng = random.Random("%s:C05:f:%d" % (spec["seed"], spec["i"]))
+    sched.instrument([_action, _output, _errors, _traceback])
+
+    def boom(e):
+        raise RuntimeError("vf-c05 extractor failed")
+    register_exception_extractor(BrokenExtractorError, boom)
+    register_exception_extractor(FineExtractorError, lambda e: {"fine_code": e.args[0]})
+    nthreads = rng.choice([2, 2, 3])
+    kinds = ["broken"] + [rng.choice(["oserror", "fine", "oserror_tb", "fine_tb", "broken"]) for _ in range(nthreads - 1)]
+    rng.shuffle(kinds)
+    c = res["counters"]
+
+    def worker(k, kind):
+        def run():
+            try:
+                with start_action(action_type="f:act", who=k):
+                    if kind == "broken":
+                        raise BrokenExtractorError("thread %d" % k)
+                    if kind == "oserror":
+                        raise OSError(100 + k, "thread %d" % k)
+                    if kind == "fine":
+                        raise FineExtractorError(200 + k)
+                    try:
+                        raise (OSError(100 + k, "thread %d" % k) if kind == "oserror_tb" else FineExtractorError(200 + k))
+                    except Exception:
+                        write_traceback()
+            except (BrokenExtractorError, OSError, FineExtractorError):
+                pass
+        return run
+
+    def execute(plan_, label):
+        got = []
+        dest = got.append
+        add_destinations(dest)
+        try:
+            st, errs = sched.run_schedule(plan_, dict(("w%d" % k, worker(k, kind)) for k, kind in enumerate(kinds)), timeout=120.0)
+        finally:
+            remove_destination(dest)
+        res["evals"] += 1
+        c["failure_schedules_run"] = c.get("failure_schedules_run", 0) + 1
+        if st["deadlock"]:
+            res["violations"].append({"msg": "threads deadlocked inside eliot: %s" % st["deadlock"], "mech": None, "detail": {"part": "failures", "plan": plan_}})
+            return st
+        if st["aborted"]:
+            res["inconclusive"] = "schedule abandoned: %s" % st["aborted"]
+            return st
+        problems = ["a thread raised %r" % (e,) for e in errs.values()]
+        by_uuid = {}
+        reports = 0
+        for m in got:
+            if m.get("message_type") == "eliot:traceback" and "vf-c05 extractor failed" in str(m.get("reason")):
+                # eliot's report about the raising extractor: logged in the context current when the action finished (here: none,
+                # so it is a one-message task of its own)
+                reports += 1
+                continue
+            by_uuid.setdefault(m["task_uuid"], []).append(dict(m))
+        if reports != kinds.count("broken"):
+            problems.append("%d actions failed with an exception whose extractor raises, %d reports about a raising extractor were logged" % (kinds.count("broken"), reports))
+        if len(by_uuid) != len(kinds):
+            problems.append("%d threads each ran one task, the log has %d tasks" % (len(kinds), len(by_uuid)))
+        for msgs in by_uuid.values():
+            who = [m.get("who") for m in msgs if m.get("action_status") == "started"]
+            if len(who) != 1 or not isinstance(who[0], int) or who[0] >= len(kinds):
+                problems.append("a task without exactly one start message: %r" % (who,))
+                continue
+            k, kind = who[0], kinds[who[0]]
+            ends = [m for m in msgs if "action_status" in m and m["action_status"] != "started"]
+            tbs = [m for m in msgs if m.get("message_type") == "eliot:traceback"]
+            want_end, want_tb = {}, None
+            if kind == "oserror":
+                want_end = {"errno": 100 + k}
+            elif kind == "fine":
+                want_end = {"fine_code": 200 + k}
+            elif kind == "oserror_tb":
+                want_tb = {"errno": 100 + k}
+            elif kind == "fine_tb":
+                want_tb = {"fine_code": 200 + k}
+            if len(ends) != 1:
+                problems.append("thread %d (%s): %d end messages" % (k, kind, len(ends)))
+                continue
+            extra = {f: v for f, v in ends[0].items() if f in ("errno", "fine_code")}
+            if extra != want_end:
+                problems.append("thread %d's action failed with %s: its end message carries extractor fields %r, its own exception's extractor gives %r "
+                                "(another thread was %s at the time)" % (k, kind, extra, want_end, "/".join(x for j, x in enumerate(kinds) if j != k)))
+            if want_tb is not None:
+                if len(tbs) != 1:
+                    problems.append("thread %d (%s): %d traceback messages in its task" % (k, kind, len(tbs)))
+                else:
+                    extra = {f: v for f, v in tbs[0].items() if f in ("errno", "fine_code")}
+                    if extra != want_tb:
+                        problems.append("thread %d's traceback message for %s carries extractor fields %r, its own exception's extractor gives %r" % (
+                            k, kind, extra, want_tb))
+            elif tbs:
+                problems.append("thread %d (%s): %d traceback messages in its task, it logged none" % (k, kind, len(tbs)))
+        res["sets"]["interleavings"].append(sched.trace_hash(st))
+        for nm, kk, loc in st["fired"]:
+            res["sets"]["preemption_lines"].append(loc)
+            if loc.startswith(("_errors.py", "_traceback.py")):
+                c["preemptions_inside_failure_reporting"] = c.get("preemptions_inside_failure_reporting", 0) + 1
+        if st["fired"]:
+            res["nontrivial"].append(sched.trace_hash(st))
+        if problems and len(res["violations"]) < 3:
+            res["violations"].append({"msg": problems[0], "mech": None, "detail": {"part": "failures", "plan": plan_, "kinds": kinds, "problems": problems[:6], "label": label}})
+        return st
+
+    names = ["w%d" % k for k in range(len(kinds))]
+    base = execute({"order": names, "changes": []}, "baseline")
+    if base["aborted"] or base["deadlock"]:
+        return
+    for p in sched.one_preemption_plans(names, base["events"]):
+        execute(p, "1-preemption")
+        if len(res["violations"]) >= 3:
+            return
+    for p in sched.sampled_plans(rng, names, base["events"], 8 if spec["tier"] == "quick" else 40):
+        execute(p, "sampled")
+
+
 def part_async(spec, res):
     rng = random.Random("%s:C05:a:%d" % (spec["seed"], spec["i"]))
     prog = conc.gen_async_program(rng, max_tasks=rng.choice([2, 4, 6, 8]))
@@ -161,6 +296,8 @@ def run_case(spec):
     res = {"evals": 0, "nontrivial": [], "counters": {}, "violations": [], "sample": None, "sets": {"interleavings": [], "preemption_lines": []}}
     if spec["part"] == "threads":
         part_threads(spec, res)
+    elif spec["part"] == "failures":
+        part_failures(spec, res)
     else:
         part_async(spec, res)
     return res
@@ -172,6 +309,8 @@ def finalize(agg, tier):
         return "too few schedules"
     if c.get("dynamic_threads_registered", 0) == 0:
         return "spawned threads were never registered with the scheduler"
+    if c.get("preemptions_inside_failure_reporting", 0) < 20:
+        return "part 'failures': too few preemptions landed inside eliot's failure reporting"
     if not any(l.startswith("_action.py") for l in agg["sets"].get("preemption_lines", {})):
         return "no preemption landed inside eliot/_action.py"
     return None
